@@ -13,7 +13,7 @@ func init() {
 	register(&Check{
 		ID:    "C19",
 		Level: "model_checking",
-		Rule: "(a) every value of the bounded universe (nested structures with null, unknown and marked members at every depth: each pool value x mark placements at the root and at one or two nested members) : Walk against a reference pre-order enumeration, Path.Apply of every reported path, identity Transform, replacement of each single member, UnmarkDeepWithPaths / MarkWithPaths round trip; " +
+		Rule: "(a) every value of the bounded universe (nested structures with null, unknown and marked members at every depth: each pool value x mark placements at the root and at one or two nested members) : Walk against a reference pre-order enumeration, Path.Apply of every reported path, identity Transform, replacement of each single member, replacement of each member of every set by another member / a null / a fresh value (the set shrinks when the replacement equals another member), UnmarkDeepWithPaths / MarkWithPaths round trip; " +
 			"(b) every path of length <= 2 (thorough 3) over a step alphabet (attribute names incl. normalising ones, integer / fractional / negative / huge / string / null / unknown keys) applied to every pool value against a reference; " +
 			"(c) breadth-first search over all histories (depth 5, thorough 7) of Add / AddAllSteps / Remove / Copy-by-union / Union / Intersection / Subtract / SymmetricDifference on two real PathSets over a 7-path alphabet (numerically equal keys of different precision, normalising names, prefixes of one another), a model set in lock-step; states keyed on model + List order; " +
 			"distinct by value GoString / (value, path) / state; non-trivial = composite, marked or unknown values; every transition",
@@ -251,6 +251,71 @@ func c19Value(u *U, v cty.Value) {
 				if !ok || !rawEq(nv, orig.val) {
 					u.Violation("transform.replace-disturbs-other", shape, fmt.Sprintf("Transform(%s) replacing %s: member %s changed from %s to %s", desc, target, ps, goStr(orig.val), goStr(nv)))
 				}
+			}
+		}
+	}
+	// 4b. replace one member of a set (members of sets are visited with the set's path plus an index step keyed by the member itself): the
+	// result holds the other members and the replacement - also when the replacement equals
+	// another member, so that the set shrinks
+	for _, vis := range got {
+		if pathThroughSet(v, vis.path) {
+			continue
+		}
+		sv, smarks := vis.val.Unmark()
+		if !sv.IsKnown() || sv.IsNull() || !sv.Type().IsSetType() || sv.LengthInt() == 0 {
+			continue
+		}
+		members := sv.AsValueSlice()
+		setPath := pathStr(vis.path)
+		ety := sv.Type().ElementType()
+		var repls []cty.Value
+		repls = append(repls, members...)
+		repls = append(repls, cty.NullVal(ety))
+		if ety == cty.String {
+			repls = append(repls, cty.StringVal("fresh"))
+		}
+		if ety == cty.Number {
+			repls = append(repls, cty.NumberIntVal(424242))
+		}
+		for mi, m := range members {
+			if m.ContainsMarked() || !m.IsWhollyKnown() {
+				continue // membership of such members is not decidable by raw equality
+			}
+			for _, r := range repls {
+				if rawEq(r, m) || r.ContainsMarked() || !r.IsWhollyKnown() {
+					continue
+				}
+				var want []cty.Value
+				for j, o := range members {
+					if j != mi {
+						want = append(want, o)
+					}
+				}
+				want = append(want, r)
+				wantSet := cty.SetVal(want).WithMarks(smarks)
+				rv, rerr, rpan := doTransform(v, func(p cty.Path, x cty.Value) (cty.Value, error) {
+					if len(p) == len(vis.path)+1 && pathStr(p[:len(vis.path)]) == setPath && x.Type().Equals(ety) && rawEq(x, m) {
+						return r, nil
+					}
+					return x, nil
+				})
+				u.Eval(1)
+				if rpan != "" || rerr != nil {
+					u.Violation("transform.replace-fails", shape, fmt.Sprintf("Transform(%s) replacing set member %s by %s failed: %v %s", desc, goStr(m), goStr(r), rerr, firstLineOf(rpan)))
+					continue
+				}
+				gotSet, aerr, apan := applyPath(vis.path, rv)
+				if apan != "" || aerr != nil {
+					u.Violation("transform.replace-fails", shape, fmt.Sprintf("Transform(%s) replacing set member %s by %s: the set at %s is gone", desc, goStr(m), goStr(r), setPath))
+					continue
+				}
+				// (Path.Apply hands down the marks of the ancestors it passes: compare below the top-level marks)
+				gu, _ := gotSet.Unmark()
+				wu, _ := wantSet.Unmark()
+				if !rawEq(gu, wu) {
+					u.Violation("transform.replace-set-member", shape, fmt.Sprintf("Transform(%s) replacing member %s of the set at %q by %s gives %s, expected %s", desc, goStr(m), setPath, goStr(r), goStr(gotSet), goStr(wantSet)))
+				}
+				u.Class("set-member-replaced")
 			}
 		}
 	}
